@@ -9,7 +9,7 @@ import os
 for _v in ("OMP_NUM_THREADS", "OPENBLAS_NUM_THREADS", "MKL_NUM_THREADS"):   # one process per grid: no nested BLAS threads
     os.environ.setdefault(_v, "1")
 import numpy as np
-from .common import Result, quiet
+from .common import Result, quiet, caller_mutation_visible
 
 ALGS = ("ico", "cube3D", "randomS")
 N_MAX = {"quick": 60, "thorough": 200}
@@ -24,7 +24,7 @@ MAX_FAIL_PER_GRID = 6
 CLAUSES = ("frame: shapes (N,N), N unit points", "symmetric + empty diagonal + one common stored pattern",
            "adjacent <=> shared arc of positive length (per decidable pair)", "border entry = arc length (per adjacent pair)",
            "distance entry = great-circle angle (per adjacent pair)", "cell area = area of the region (per cell)",
-           "areas positive, sum = 4 pi")
+           "areas positive, sum = 4 pi", "later requests do not see a caller's in-place change of an earlier result")
 
 
 def check_grid(alg, N):
@@ -150,6 +150,18 @@ def check_grid(alg, N):
         fail(CLAUSES[6], f"non-positive area at cell {int(np.argmin(area))}: {area.min()!r}")
     if abs(area.sum() - 4 * np.pi) > TOL_AREA:
         fail(CLAUSES[6], f"areas sum to {area.sum()!r}, 4 pi = {4 * np.pi!r}")
+
+    if N % 4 == 0:
+        counts[CLAUSES[7]] += 1
+        with quiet():
+            sv = g.get_spherical_voronoi()
+            bad = caller_mutation_visible({
+                "adjacency": lambda: g.get_voronoi_adjacency(only_upper=False, include_opposing_neighbours=False),
+                "borders": g.get_cell_borders,
+                "distances": lambda: g.get_center_distances(only_upper=False, include_opposing_neighbours=False),
+                "areas": sv.get_voronoi_volumes})
+        if bad:
+            fail(CLAUSES[7], f"getters {bad} hand out a buffer that later requests return again (changed by the caller in between)")
 
     info = {"alg": alg, "N": N, "adjacent_pairs": int(o_adj[iu].sum()), "undecidable_pairs": int(undec[iu].sum()),
             "roundoff_arcs_le_1e-9": int(((arc > 0) & (arc <= UNDECIDABLE[0]))[iu].sum()),
